@@ -53,6 +53,9 @@ struct Ctx {
     std::vector<std::unique_ptr<cocls::future<int>>> gates;        // awaitables of K_COAWAIT_AWT_*
     std::vector<std::unique_ptr<cocls::future<void>>> vgates;      // parked coroutines of K_RESUME_SP
     void mark_ran(int i) { JRec &r = j[(size_t)i]; r.ran++; r.on_worker = is_current(*pp); r.t_ran = hz::tick(); }
+    // a coroutine that was just cancelled or handed over typically looks at the pool again (is it stopped? can I
+    // re-submit?): this must be possible wherever the library chose to resume it (e.g. not under the pool's lock)
+    void touch_pool() { hz::slot_add(13, pp->is_stopped() ? 1 : 2); }     // (slot: bookkeeping invisible to TSan)
 };
 
 // closure guard for run_detached: counts live instances through an atomic-free slot
@@ -66,15 +69,15 @@ struct Guard {
 
 inline cocls::async<void> job_coawait(Ctx &c, int i) {
     try { co_await *c.pp; c.mark_ran(i); }
-    catch (const cocls::await_canceled_exception &) { c.j[(size_t)i].cancelled++; }
+    catch (const cocls::await_canceled_exception &) { c.j[(size_t)i].cancelled++; c.touch_pool(); }
 }
 inline cocls::async<void> job_coawait_awt(Ctx &c, int i, cocls::future<int> *gate) {
-    try { int v = co_await (*c.pp)(*gate); c.mark_ran(i); HZ_CHECK(v == 5, "co_await pool(awaitable) returned %d instead of the awaitable's value 5", v); }
-    catch (const cocls::await_canceled_exception &) { c.j[(size_t)i].cancelled++; }
+    try { int v = co_await (*c.pp)(*gate); c.mark_ran(i); HZ_CHECK(v == 5, "co_await pool(awaitable) returned %d instead of the awaitable's value 5", v); c.touch_pool(); }
+    catch (const cocls::await_canceled_exception &) { c.j[(size_t)i].cancelled++; c.touch_pool(); }
 }
 inline cocls::async<int> job_async(Ctx &c, int i) { c.mark_ran(i); co_return 9; }
 inline cocls::async<void> job_parked(Ctx &c, int i, cocls::future<void> *gate) {
-    try { co_await *gate; c.mark_ran(i); }
+    try { co_await *gate; c.mark_ran(i); c.touch_pool(); }
     catch (const cocls::await_canceled_exception &) { c.j[(size_t)i].cancelled++; }
 }
 
